@@ -257,7 +257,7 @@ func run(c *core.Ctx) int {
 		cv := covs[op.Name]
 		ok := cv != nil
 		for _, e := range engines {
-			for _, f := range forms {
+			for _, f := range requiredForms(op) {
 				if cv == nil || cv.evals[e+"/"+f] == 0 {
 					ok = false
 					missing = append(missing, op.Name+":"+e+"/"+f)
@@ -286,6 +286,7 @@ func run(c *core.Ctx) int {
 	c.Extra("opcodes_covered_of_table", sprintf("%d of %d", c.DistinctN("opcodes_covered"), len(wops.Table)))
 	c.Assume("refsem is the oracle: validated against 47209 spec-test vectors (go test ./refsem) and against math/big / Go math on random inputs")
 	c.Assume("NaN results: canonical NaN (either sign) required when no operand is a non-canonical NaN, any arithmetic NaN otherwise; abs/neg/copysign/pmin/pmax/reinterpret/lane moves are bit-exact")
+	c.Assume("extra forms: Kl/Kr (only the first / only the last operand constant) for instructions with >=2 operands; Mxx (one loaded value as both operands) for binary instructions with equal operand types; Mif/Mbr/Msel (0/1 result consumed by if / br_if / select) for tests, comparisons, any_true/all_true; they count as required for the rows they apply to")
 	c.Assume("form K bakes a strided subset of each segment as constants (all tuples for 8-bit and unary 16-bit exhaustive segments); forms P and M run every tuple")
 	code := c.Finish(evals, int64(c.DistinctN("opcodes_covered")),
 		"one evaluation = one executed instruction instance (engine, form, immediate, operand tuple) compared with refsem; distinct = table rows exercised in all three forms on both engines (all lane immediates for lane ops)")
@@ -294,6 +295,21 @@ func run(c *core.Ctx) int {
 		return 2
 	}
 	return code
+}
+
+// requiredForms: P, K, M for every row, plus the variants that apply to the row.
+func requiredForms(op *wops.Op) []string {
+	out := append([]string(nil), forms...)
+	if len(op.Params) >= 2 {
+		out = append(out, "Kl", "Kr")
+	}
+	if sameOperandForm(op) {
+		out = append(out, "Mxx")
+	}
+	if isBoolean(op) {
+		out = append(out, "Mif", "Mbr", "Msel")
+	}
+	return out
 }
 
 func sum(m map[string]int64) int64 {
@@ -435,6 +451,12 @@ func isBoolean(op *wops.Op) bool {
 	return false
 }
 
+// sameOperandForm: binary instructions whose operands have the same type also run
+// with one SSA value as both operands (form "Mxx": register aliasing in lowerings).
+func sameOperandForm(op *wops.Op) bool {
+	return len(op.Params) == 2 && op.Params[0].ValType() == op.Params[1].ValType()
+}
+
 // loop variants of the P/M module: export prefix -> evidence form
 var loopForms = []struct{ fn, form string }{{"m", "M"}, {"pl", "P"}}
 var boolForms = []struct{ fn, form string }{{"bi", "Mif"}, {"bb", "Mbr"}, {"bs", "Msel"}}
@@ -454,6 +476,9 @@ func buildPM(op *wops.Op, imms [][]byte) []byte {
 	variants := []string{"pl", "m"}
 	if isBoolean(op) {
 		variants = append(variants, "bi", "bb", "bs")
+	}
+	if sameOperandForm(op) {
+		variants = append(variants, "mx")
 	}
 	for k, imm := range imms {
 		pc := &wenc.Code{}
@@ -481,6 +506,11 @@ func buildPM(op *wops.Op, imms [][]byte) []byte {
 			case "m":
 				loads()
 				op.Emit(lc, imm)
+			case "mx": // one loaded value used as both operands
+				lc.LocalGet(0)
+				loadOp(lc, op.Params[0], 0)
+				lc.LocalTee(3).LocalGet(3)
+				op.Emit(lc, imm)
 			case "bi":
 				loads()
 				op.Emit(lc, imm)
@@ -504,7 +534,11 @@ func buildPM(op *wops.Op, imms [][]byte) []byte {
 			lc.LocalGet(1).I32Const(16).Op(0x6a).LocalSet(1)
 			lc.LocalGet(2).I32Const(1).Op(0x6b).LocalTee(2)
 			lc.BrIf(0).End().End()
-			m.ExportFunc(sprintf("%s%d", v, k), m.AddFunc(loopSig, nil, nil, lc.B))
+			var locals []wenc.ValType
+			if v == "mx" {
+				locals = []wenc.ValType{op.Params[0].ValType()}
+			}
+			m.ExportFunc(sprintf("%s%d", v, k), m.AddFunc(loopSig, nil, locals, lc.B))
 		}
 	}
 	return m.Encode()
@@ -892,6 +926,43 @@ func (rn *runner) runImm(k int, imm []byte, tuples []tuple, sg seg, base int) {
 				rn.checkTrap(e.name, lf.form, imm, tuples[i], refs[i], err, mem)
 				rn.res.Evals[e.name+"/"+lf.form]++
 				rn.res.Traps++
+			}
+		}
+		// ---- form Mxx: operand 0 of every tuple as both operands
+		if sameOperandForm(op) && len(tuples) > 0 {
+			f := mod.ExportedFunction(sprintf("mx%d", k))
+			xbuf := make([]byte, len(tuples)*stride)
+			var xs []int
+			xrefs := make([]refsem.Result, len(tuples))
+			for i := range tuples {
+				xrefs[i] = refsem.Eval(op, imm, []refsem.Val{tuples[i][0], tuples[i][0]})
+				if xrefs[i].Trap == refsem.NoTrap {
+					putVal(xbuf[len(xs)*stride:], tuples[i][0])
+					xs = append(xs, i)
+				}
+			}
+			if len(xs) > 0 {
+				mem.Write(inBase, xbuf[:len(xs)*stride])
+				if _, err := f.Call(ctx, inBase, outBase, uint64(len(xs))); err != nil {
+					rn.report(e.name, "Mxx", "wrong-trap", imm, tuple{tuples[xs[0]][0], tuples[xs[0]][0]}, xrefs[xs[0]], "error in a batch of tuples (first shown): "+core.Trunc(err.Error(), 200), "")
+				} else {
+					out, _ := mem.Read(outBase, uint32(16*len(xs)))
+					for j, i := range xs {
+						rn.check(e.name, "Mxx", imm, tuple{tuples[i][0], tuples[i][0]}, xrefs[i], getVal(out[16*j:]))
+					}
+					rn.res.Evals[e.name+"/Mxx"] += int64(len(xs))
+					rn.res.Lanes += int64(len(xs)) * lanesPer
+				}
+			}
+			for i := range tuples { // x op x that must trap (0/0, 0%0)
+				if xrefs[i].Trap != refsem.NoTrap {
+					putVal(one, tuples[i][0])
+					mem.Write(inBase, one)
+					_, err := f.Call(ctx, inBase, outBase, 1)
+					rn.checkTrap(e.name, "Mxx", imm, tuple{tuples[i][0], tuples[i][0]}, xrefs[i], err, mem)
+					rn.res.Evals[e.name+"/Mxx"]++
+					rn.res.Traps++
+				}
 			}
 		}
 		// ---- form P through the Go API, one call per tuple
